@@ -65,8 +65,8 @@ pub fn exec(toks: &[&str]) -> String {
                     if u.path_bytes() != u.path().as_bytes() {
                         return "path-accessors-disagree".into();
                     }
-                    format!("ok {} {} {} {} {}", ms, ps, hex(u.authority().as_bytes()),
-                        hex(u.module_name().as_bytes()), hex(u.path().as_bytes()))
+                    format!("ok {} {} {} {} {} {}", ms, ps, hex(u.authority().as_bytes()),
+                        hex(u.module_name().as_bytes()), hex(u.path().as_bytes()), hex(u.canonical_module().as_bytes()))
                 }
                 Err(e) => show_err(e).into(),
             }
